@@ -22,7 +22,8 @@ const shim = "github.com/keep-network/keep-core/pkg/verifshim/"
 
 // Options: Opts is a list of
 //
-//	sync time ctx atomic  – swap the import for the shim package (default: sync time ctx)
+//	sync time ctx atomic  – swap the import for the shim package (default: sync time ctx;
+//	                        atomic follows sync unless given / noatomic)
 //	go chan               – rewrite go statements / channel operations (default on)
 //	nosync notime noctx nogo nochan – switch a default off
 //	maprange:<expr>       – route `for … := range <expr>` through vsched.MapOrder
@@ -209,6 +210,12 @@ func File(src, dst string, o Options) error {
 		default:
 			on[op] = true
 		}
+	}
+	// sync/atomic follows sync unless said otherwise: a file whose mutexes are scheduling
+	// points gets its atomics as scheduling points too (a change that replaces a lock by
+	// atomics must not fall out of the explored interleavings)
+	if _, explicit := on["atomic"]; !explicit {
+		on["atomic"] = on["sync"]
 	}
 	fset := token.NewFileSet()
 	f, err := parser.ParseFile(fset, src, nil, parser.ParseComments)
